@@ -313,6 +313,12 @@ func c04ValidateBeforeAlloc(r *Run) {
 		if same {
 			d, ok := c.lin(lf).sub(arg)
 			same = ok && d.isConst() && d.K == 0
+			if !same {
+				// the conversion to int may be opaque on a 32-bit target: equal under the guards in force
+				q1, ok1 := leq(c.lin(lf), arg, "")
+				q2, ok2 := leq(arg, c.lin(lf), "")
+				same = ok1 && ok2 && c.proveAt(b, idx, q1) && c.proveAt(b, idx, q2)
+			}
 		}
 		r.Check(same, rule, "readFrame: buffer size = the big-endian length field", call.Pos(), "int(msgLen)", "the frame buffer must be exactly as long as the validated length field")
 	})
